@@ -519,6 +519,78 @@ def correspond(ctx, runs):
     ctx.extra["correspondence_disagreements"] = nbad
 
 
+def coq_inner(o):
+    f = FATES[o[1]]
+    return "(%d, %s)" % (o[2], (f % max(o[3], 1)) if "%d" in f else f)
+
+
+def nested_correspond(ctx, runs):
+    """calls issued from INSIDE the serialization of a call, nested reading: the model gets only the ops of ordinary code
+    plus the hook table (call, control point) -> calls issued there, as it really happened; lib/Order.v nrun / pump_h must
+    fire every hook at the step at which the real slicer ran it -- inside the issuing send() on an idle sender, out of a
+    later release when the hooked call was only queued -- and leave the real sender's state after every script step"""
+    cases = []
+    for name, script, d, r in runs:
+        steps = r["ops"][d]
+        if not any(o[0] == "I" and len(o) > 4 and o[4] is not None for ops in steps for o in ops):
+            continue
+        table, order = {}, []
+        born, nst, cid = {}, {}, 0          # call -> index of the step in which it was issued / its number of stalls
+        for si, ops in enumerate(steps):
+            for o in ops:
+                if o[0] == "I":
+                    born[cid], nst[cid] = (si if o[4] is None else -1), o[2]
+                    cid += 1
+                if o[0] == "I" and o[4] is not None:
+                    key = tuple(o[4])
+                    if key not in table:
+                        table[key] = []
+                        order.append(key)
+                        ctx.hist("hook_ran", "after a pause of its call" if key[1] != nst.get(key[0]) else
+                                 ("inside the send() that issued its call (idle sender)" if born.get(key[0]) == si else
+                                  "when its queued call was taken off the queue (busy sender)"))
+                    table[key].append(coq_inner(o))
+        H = coq_list(["((%d, %d), %s)" % (k[0], k[1], coq_list(table[k])) for k in order])
+        outer = coq_list([coq_list([coq_op(o) for o in ops if not (o[0] == "I" and o[4] is not None)]) for ops in steps])
+        cases.append((name, script, d, r, "(%s, %s)" % (H, outer), sum(len(v) for v in table.values())))
+    ctx.extra["nested_traces"] = len(cases)
+    if not cases:
+        return
+    nbad = nsteps = 0
+    shard = 200
+    for base in range(0, len(cases), shard):
+        part = cases[base:base + shard]
+        body = "Definition cases : list (list hook * list (list op)) := " + coq_list([c[4] for c in part]) + ".\n" \
+               "Eval vm_compute in map (fun c => (observe_steps_h (ninit (fst c)) (snd c), hooks_left_after (fst c) (snd c))) cases.\n"
+        try:
+            (vals,) = ctx.coq_eval("C04_nested_%d" % (base // shard), body, requires=REQ)
+        except common.CoqEvalError as e:
+            ctx.fail("correspondence-broken", "the model with hooks could not be evaluated: " + str(e)[-1500:], has_input=False)
+            return
+        for (name, script, d, r, lit, ninner), (mobs, left) in zip(part, vals):
+            ctx.traces += 1
+            ctx.hist("nested_calls_issued_from_inside", min(ninner, 6))
+            bad = None
+            for i, (m, o) in enumerate(zip(mobs, r["obs"])):
+                nsteps += 1
+                m = norm(m)
+                io = norm(impl_obs(o[d]))
+                if m != io:
+                    bad = "after step %d (%s): model with hooks %r, implementation %r" % (i, script[i] if i < len(script) else "quiesce", m, io)
+                    break
+            if bad is None and left:
+                bad = "at the end %d call(s) that the real slicers issued from inside are still in the model's hook table (hook never ran)" % left
+            if bad:
+                nbad += 1
+                if nbad <= 3:
+                    ctx.fail("correspondence/nested-state", "model with hooks (lib/Order.v nrun: calls issued from inside a serialization come "
+                             "out of the hook table) and implementation disagree in scenario %s, direction %d, %s; case %s"
+                             % (name, d, bad, lit[:900]),
+                             replay=dict(scenario=name, script=script, direction=d, ops=r["ops"][d]), has_input=False)
+    ctx.extra["nested_steps"] = nsteps
+    ctx.extra["nested_disagreements"] = nbad
+
+
 def local_correspond(ctx, impl):
     """the eventual queue as a channel (LocalReferenceable calls / LoopbackTransport bytes) shared with unrelated
     callables, raising callables and callables that write when they run: model lrun vs the real queue"""
@@ -782,9 +854,12 @@ def run(ctx):
         "the receive path (Banana.handleData, CallUnslicer) is tied by trace validation only: one model Deliver step = the "
         "bytes up to the end of the next serialized call",
         "a call issued from inside the serialization of another call (re-entrant Broker.send under Banana.produce) is logged as an "
-        "ordinary Issue op at the moment Broker.send gets its CallSlicer; that this flat reading equals the nested one (the running "
-        "producer only enqueues, lib/Order.v issue_nested / release_nested) is a theorem (C04_reentrant_issue_is_history, "
-        "C04_reentrant_issue_after_pause_is_history), and the real sender is compared with it after every step",
+        "Issue op at the moment Broker.send gets its CallSlicer, tagged with the call and control point whose hook issued it.  FLAT "
+        "reading: an ordinary Issue op there; NESTED reading: not an op at all but an entry of the hook table of lib/Order.v "
+        "(nrun / pump_h / issue_h / release_h: the hook fires inside the issuing send() on an idle sender, out of a later release "
+        "when the hooked call was only queued behind a paused one).  That both readings give the same state, for every table, "
+        "history and sender state, is a theorem (C04_reentrant_history_is_flat_history); BOTH are evaluated on the real scenarios "
+        "and compared with the real sender after every step (correspondence/state, correspondence/nested-state)",
         "the kind of target (Referenceable / bound method / function) is not a model notion: Broker._doCall must invoke either kind "
         "directly (shape fact, fail closed); calls to all three kinds are mixed in the scenarios and validated against the same model",
     ]
@@ -940,6 +1015,7 @@ def run(ctx):
         model_ok, _ = ctx.coq_build(["lib/Order.vo"])
     if model_ok:
         correspond(ctx, runs)
+        nested_correspond(ctx, runs)
         local_correspond(ctx, impl)
         unit_facts(ctx, impl)
         async_and_facts(ctx, impl)
